@@ -435,7 +435,7 @@ class Table:
 
         if comparison == "in" or (comparison is None and isinstance(arg,collections.abc.Iterable) and not isinstance(arg,str)):
             if method == "bisect":
-                return [ (my_bisect_left(col,v,lo,hi),my_bisect_right(col,v,lo,hi)) for v in sorted(arg) ]
+                return [ (my_bisect_left(col,v,lo,hi),my_bisect_right(col,v,lo,hi)) for v in sorted(set(arg)) ]
             else:
                 return [ i for i,c in enumerate(col,lo) if c in arg ]
 
